@@ -196,5 +196,91 @@ def h_hist(ctx, target, H, tier):
     ctx.cover("__nontrivial__")
 
 
+# ---------------------------------------------------------------------------
+# same-family pairs: one prior schedule of the same class, parameters from a box
+
+def pair_box(cls, tier):
+    q = tier == "quick"
+    out = []
+    if cls == "Multistage":
+        for n in range(2, (8 if q else 12) + 1):
+            for ram in range(0, 3):
+                for disk in range(0, 3):
+                    if ram + disk >= 1:
+                        for traj in ("maximum", "revolve"):
+                            out.append({"cls": cls, "n": n, "ram": ram, "disk": disk, "trajectory": traj})
+    elif cls == "Mixed":
+        for n in range(2, (9 if q else 14) + 1):
+            for s in range(1, 5):
+                out.append({"cls": cls, "n": n, "s": s, "storage": "DISK" if (n + s) % 2 else "RAM"})
+    elif cls == "TwoLevel":
+        for n in range(2, (7 if q else 10) + 1):
+            for p in range(1, 5):
+                for b in range(0, 3):
+                    out.append({"cls": cls, "n": n, "period": p, "b": b, "storage": "RAM" if b % 2 else "DISK",
+                                "trajectory": "maximum"})
+    else:
+        costs = {"uf": 1, "ub": 1, "wd": 2, "rd": 2}
+        for n in range(2, (9 if q else 13) + 1):
+            for ram in range(1, 4):
+                if cls == "HRevolve":
+                    for disk in range(0, 4 if q else 5):
+                        out.append(dict(costs, cls=cls, n=n, ram=ram, disk=disk))
+                else:
+                    out.append(dict(costs, cls=cls, n=n, ram=ram))
+    return out
+
+
+_PAIR_BASE = {}
+
+
+def pair_baseline(cls, tier):
+    key = (cls, tier)
+    if key not in _PAIR_BASE:
+        here = os.path.dirname(os.path.dirname(os.path.abspath(__file__)))
+        p = subprocess.run([sys.executable, "-m", "vcheck.hist", "pair", cls, tier], cwd=here,
+                           capture_output=True, text=True, timeout=1200)
+        if p.returncode != 0:
+            raise RuntimeError("baseline interpreter failed: " + p.stderr[-800:])
+        _PAIR_BASE[key] = [[tuple(a) for a in st] for st in json.loads(p.stdout)]
+    return _PAIR_BASE[key]
+
+
+def h_hist_pair(ctx, cls, tier, first):
+    """Schedule `first` of the box is built and exhausted (or only advanced), then a
+    target of the same class is compared with its fresh-interpreter stream."""
+    silence_repo_output()
+    box = pair_box(cls, tier)
+    base = pair_baseline(cls, tier)
+    how = ctx.choice("how", ["exhaust", "advance", "construct-only"])
+    t = ctx.int("target", 0, len(box) - 1, eager=True)
+    try:
+        lv = Live(box[first])
+        if how == "exhaust":
+            lv.run()
+        elif how == "advance":
+            for _ in range(4):
+                lv.step()
+        got = Live(box[t]).run()
+    except PathAbort:
+        raise
+    except Exception as e:                                  # noqa: BLE001
+        ctx.fail("C15.stream_differs", {"first": box[first], "target": box[t], "exc": repr(e)})
+    got = [tuple(a) for a in got]
+    ctx.trace(("stream", tuple(got)))
+    b = base[t]
+    k = 0
+    while k < min(len(got), len(b)) and got[k] == b[k]:
+        k += 1
+    ctx.require(len(got) == len(b) == k, "C15.stream_differs",
+                lambda: {"target": box[t], "history": [(how, box[first])],
+                         "first_difference_at": k, "got": got[k:k + 2], "fresh_interpreter": b[k:k + 2]})
+    ctx.cover("__nontrivial__")
+
+
 if __name__ == "__main__":
-    print(json.dumps(baseline_streams()))
+    if len(sys.argv) > 1 and sys.argv[1] == "pair":
+        silence_repo_output()
+        print(json.dumps([Live(spec).run() for spec in pair_box(sys.argv[2], sys.argv[3])]))
+    else:
+        print(json.dumps(baseline_streams()))
